@@ -197,6 +197,28 @@ def handle (op : String) (a : Json) : P Json := do
     pure <| Json.arr ((runOps ⟨[], 0⟩ ops).map fun b => Json.mkObj [
       ("patches", Json.arr (b.patches.map fun l => Json.arr (l.map itemJ).toArray).toArray),
       ("networks", natJ b.networks)]).toArray
+  | "axes" =>
+    -- a history of renderer operations -> the obstacle patch collections on the AXES after every render / render_dynamic
+    --   ops as in "ops" + {"op":"render_static"} | {"op":"remove_dynamic"} | {"op":"cla"}
+    let mut ops : List AOp := []
+    for j in ← asArr (← field a "ops") do
+      match ← getStr j "op" with
+      | "draw" =>
+        match flagsOf (← grpOfJson (← field j "tree")) with
+        | none => throw "axes: flagsOf failed"
+        | some f =>
+          let fr : Frame := ⟨f, ← getList obstOfJson j "obstacles", ← getBool j "draw_network", false⟩
+          ops := ops ++ [.draw fr]
+      | "clear" => ops := ops ++ [.clear (← getBool j "keep")]
+      | "render" => ops := ops ++ [.render (← getBool j "keep")]
+      | "render_dynamic" => ops := ops ++ [.renderDynamic]
+      | "render_static" => ops := ops ++ [.renderStatic]
+      | "remove_dynamic" => ops := ops ++ [.removeDynamic]
+      | "cla" => ops := ops ++ [.cla]
+      | o => throw s!"axes: unknown op {o}"
+    pure <| Json.arr ((runAxes Rend.init ops).map fun ax => Json.arr (ax.map fun c => Json.mkObj [
+      ("show", natJ c.1),
+      ("patches", Json.arr (c.2.map fun l => Json.arr (l.map itemJ).toArray).toArray)]).toArray).toArray
   | "net" =>
     let ls ← getList (fun j => do pure ({ id := ← getInt j "id", leftBorder := ← getBool j "left_border" } : LaneletInfo)) a "lanelets"
     let f : NetFlags := { drawIds := ← optIds a "draw_ids", borderVertices := ← getBool a "border_vertices",
